@@ -54,7 +54,66 @@ def ref_read(chips, addr):
     return v
 
 
+def replay_rust(rec):
+    """Native run of the real Rust LcdController (replay binary) against the plain-Python reference."""
+    from engines.rsym import build
+    from checks.lcd_check import spec_pixel
+
+    ins = {}
+    ref = []
+    for chip, s in enumerate(rec["chips"]):
+        flat = [s["vram_default"]] * 512
+        for a, b in s["vram"].items():
+            flat[int(a)] = b
+        base = 100 + chip * 10
+        busy = rec["busy"][chip]
+        ins.update({base: s["on"], base + 1: s["start"], base + 2: s["page"], base + 3: s["y"], base + 4: busy})
+        for k, b in enumerate(flat):
+            ins[1000 + chip * 1000 + k] = b
+        ref.append({"on": s["on"], "busy": busy, "start": s["start"], "page": s["page"], "y": s["y"], "vram": list(flat)})
+    o = rec["ops"]
+    case = rec["case"]
+    if case == "pixels":
+        r = build.run_replay("harness_lcd_pixels", ins, {})
+        bad = 0
+        for row in range(32):
+            for col in range(240):
+                chip, page, c, bit = spec_pixel(row, col)
+                yv = (page * 8 + bit + ref[chip]["start"]) % 64
+                w = 0 if (ref[chip]["vram"][(yv // 8) * 64 + c] >> (yv % 8)) & 1 else 1
+                if r["out"].get(50_000 + row * 240 + col) != w:
+                    bad += 1
+        print("rust pixel mismatches:", bad)
+        return bad > 0
+    ins.update({200: 0 if case == "write" else 1, 201: o["addr"], 202: o["val"]})
+    r = build.run_replay("harness_lcd_op", ins, {})
+    out = r["out"]
+    mism = []
+    if case == "write":
+        ref_write(ref, o["addr"], o["val"])
+    else:
+        want = ref_read(ref, o["addr"])
+        got = out.get(0)
+        if got != (0x100 if want is None else want):
+            mism.append(f"return {got} want {want}")
+    for i, rf in enumerate(ref):
+        cur = {"on": out.get(60 + 10 * i), "start": out.get(61 + 10 * i), "page": out.get(62 + 10 * i), "y": out.get(63 + 10 * i)}
+        for k, v in cur.items():
+            if v != rf[k]:
+                mism.append(f"chip{i}.{k} {v} want {rf[k]}")
+        flat = [out.get(10_000 + 512 * i + k) for k in range(512)]
+        if flat != rf["vram"]:
+            mism.append(f"chip{i}.vram differs")
+        st = (0x80 if rf["busy"] else 0) | (0 if rf["on"] else 0x20)
+        if out.get(20 + i) != st:
+            mism.append(f"chip{i}.status {out.get(20 + i)} want {st}")
+    print("rust ops", o, "busy", rec["busy"], "mismatches", mism)
+    return bool(mism)
+
+
 def replay(rec):
+    if rec.get("rust"):
+        return replay_rust(rec)
     from pce500.display.controller_wrapper import HD61202Controller
     from checks.lcd_check import spec_pixel
 
